@@ -187,8 +187,17 @@ DirectedCases ==
   UNION {{ LET es == {[id |-> i, b |-> f[i], sig |-> "ok"] : i \in 1..4}
                c0 == [t |-> sh.t, voters |-> DirectedVoters, es |-> es, hs |-> {}, target |-> tg]
            IN [c0 EXCEPT !.hs = JRoute(c0, es)] : f \in [1..4 -> sh.named], tg \in sh.tgs } : sh \in DirectedShapes}
+(* second directed family (seed C19b): a two-block chain, four unit voters, every voter precommits A or B with a valid or a *)
+(* forged signature; every target                                                                                          *)
+ForgedCases ==
+  { LET t == <<0, 1>>
+        es == {[id |-> i, b |-> f[i][1], sig |-> f[i][2]] : i \in 1..4}
+        c0 == [t |-> t, voters |-> << <<1, 1>>, <<2, 1>>, <<3, 1>>, <<4, 1>> >>, es |-> es, hs |-> {}, target |-> tg]
+    IN [c0 EXCEPT !.hs = JRoute(c0, es)] : f \in [1..4 -> {1, 2} \X {"ok", "bad"}], tg \in {1, 2} }
+AllDirected == DirectedCases \cup ForgedCases
+
 InitDirected == /\ cs = [t |-> <<0>>, voters |-> DirectedVoters, es |-> {}, hs |-> {}, target |-> 1]
-                /\ done = FALSE /\ hist \in {<<c>> : c \in DirectedCases}
+                /\ done = FALSE /\ hist \in {<<c>> : c \in AllDirected}
 SpecDirected == InitDirected /\ [][Finish]_vars
 
 (* expected verdicts are computed once, when the behaviour is dumped *)
